@@ -294,8 +294,16 @@ def run_rvmon_job(prop, tier, seed, job, jidx):
         env = base_env()
         if kind == "asan":
             env["ASAN_OPTIONS"] = "detect_leaks=1:halt_on_error=1:abort_on_error=0:detect_stack_use_after_return=0"
+        inflight = part + ".inflight"
+        shutil.rmtree(inflight, ignore_errors=True)
         code, logp, dt = run_logged(cmd, f"{prop}-{label}.log", env=env, timeout=3 * 3600)
-        results.append(dict(label=label, code=code, log=logp, part=part, wall_s=dt, cmd=" ".join(cmd[1:])))
+        j = dict(label=label, code=code, log=logp, part=part, wall_s=dt, cmd=" ".join(cmd[1:]))
+        if code not in (0, 1, 2, -999) and not os.path.exists(part):
+            # the process died (abort after a non-unwinding panic, stack overflow, allocation failure,
+            # signal): find the case that does it by re-running the cases that were in flight, each
+            # alone in its own process
+            j["aborts"] = classify_abort(prop, tier, binary, env, inflight, label, code)
+        results.append(j)
     elif kind.startswith("miri"):
         shards = job.get("shards", 8)
         tb = kind == "miri-tb"
@@ -320,6 +328,36 @@ def run_rvmon_job(prop, tier, seed, job, jidx):
     else:
         raise Inconclusive(f"unknown job kind {kind}")
     return results
+
+
+def classify_abort(prop, tier, binary, env, inflight, label, code):
+    """Returns a list of violation dicts for in-flight cases that kill the process on their own."""
+    out = []
+    seen = set()
+    for f in sorted(glob.glob(os.path.join(inflight, "w*"))):
+        try:
+            raw = open(f, errors="replace").read()
+        except OSError:
+            continue
+        head, _, rest = raw.partition("\n")
+        parts = head.split()
+        if len(parts) != 2 or parts[0] == "0" or (parts[0], parts[1]) in seen:
+            continue
+        seen.add((parts[0], parts[1]))
+        panic = " ... ".join(x.strip() for x in rest.splitlines() if x.strip())
+        cmd = [binary, prop, "--tier", tier, "--case-seed", parts[0], "--index", parts[1]]
+        try:
+            p = subprocess.run(cmd, stdout=subprocess.DEVNULL, stderr=subprocess.PIPE, env=env, timeout=600, text=True, errors="replace")
+            c2, err = p.returncode, p.stderr[-400:]
+        except subprocess.TimeoutExpired:
+            continue
+        if c2 not in (0, 1, 2, 3):
+            sig = re.sub(r"\d+", "N", panic)[:160] if panic else (err.strip().splitlines() or ["no message"])[-1][:160]
+            os.makedirs(os.path.join(REPLAY, prop), exist_ok=True)
+            rp = os.path.join(REPLAY, prop, f"{label}-process-abort-{parts[0]}.json")
+            json.dump(dict(property=prop, kind="process abort", exit_code=c2, last_panic=panic, stderr_tail=err, command=" ".join(cmd)), open(rp, "w"), indent=1)
+            out.append(dict(kind=f"the process is killed by one case (exit {c2}): {sig}", detail=f"campaign exit {code}; alone: `{' '.join(cmd[1:])}` exits {c2}; last panic seen: {panic[:200]}", replay=rp))
+    return out
 
 
 def load_part(path):
@@ -356,12 +394,15 @@ def run_property(prop, tier, seed):
 def absorb_job(prop, j, res):
     part = load_part(j["part"]) if j.get("part") else None
     reports = scan_sanitizer_log(j["log"]) if j.get("sanitizer") or "asan" in j["label"] else []
+    aborts = j.get("aborts", [])
+    for v in aborts:
+        res["violations"].append(v)
     j["sanitizer_reports"] = len(reports)
     res["jobs"].append({k: j[k] for k in ("label", "code", "wall_s", "cmd", "sanitizer_reports") if k in j} | {"evaluations": (part or {}).get("evaluations", 0)})
     for kind, line in reports:
         res["violations"].append(dict(kind=kind, detail=line, replay=j["log"]))
     if part is None:
-        if not reports:
+        if not reports and not aborts:
             res["inconclusive"].append(f"job {j['label']} produced no result (exit {j['code']}), see {j['log']}")
         return
     res["parts"].append(part)
